@@ -91,9 +91,27 @@ def run_pool(names, tier, seed, jobs):
             results.append(_worker(t))
         return results
     ctx = mp.get_context("fork")
+    # every worker enforces its own wall-clock budget; this outer limit only guards against a worker that dies
+    # without answering (a crashed solver process would otherwise make the pool wait forever)
+    limit = 2400 if tier == "quick" else 8000
     with ctx.Pool(processes=min(jobs, len(tasks)), maxtasksperchild=1) as pool:
-        for r in pool.imap_unordered(_worker, tasks, chunksize=1):
-            results.append(r)
+        it = pool.imap_unordered(_worker, tasks, chunksize=1)
+        for _ in range(len(tasks)):
+            try:
+                results.append(it.next(timeout=limit))
+            except mp.TimeoutError:
+                done = {r["name"] for r in results}
+                from . import harness
+
+                for n, _t, _s in tasks:
+                    if n not in done:
+                        hb = harness.REGISTRY[n]
+                        results.append(dict(name=n, prop=hb.prop, kind=hb.kind, funcs=hb.funcs, status="undecided", expect=hb.expect,
+                                            reason=f"no answer from the worker within {limit}s (worker lost)", wall_s=limit, note=hb.note))
+                pool.terminate()
+                break
+            except StopIteration:
+                break
     return results
 
 
